@@ -60,6 +60,8 @@ pub struct Stats {
     pub excluded: Mutex<BTreeMap<String, u64>>,
     pub known_hits: Mutex<BTreeMap<String, u64>>,
     pub inconclusive: AtomicU64,
+    /// survey mode (VERIF_SURVEY=1): sig -> (count, shortest detail)
+    pub survey: Mutex<BTreeMap<String, (u64, String)>>,
 }
 
 impl Stats {
@@ -144,6 +146,21 @@ impl Ctx {
 
     pub fn quick(&self) -> bool {
         self.tier == Tier::Quick
+    }
+
+    /// Survey mode (development aid, VERIF_SURVEY=1): failures are tabulated by signature
+    /// instead of stopping the search.  Returns true if the failure was swallowed.
+    pub fn survey(&self, f: &Failure) -> bool {
+        if std::env::var("VERIF_SURVEY").is_err() {
+            return false;
+        }
+        let mut g = self.stats.survey.lock().unwrap();
+        let e = g.entry(f.sig.clone()).or_insert((0, f.detail.clone()));
+        e.0 += 1;
+        if f.detail.len() < e.1.len() {
+            e.1 = f.detail.clone();
+        }
+        true
     }
 
     /// pick a size by tier
@@ -243,6 +260,12 @@ impl Ctx {
         for (k, v) in self.extra.lock().unwrap().iter() {
             coverage.insert(k.clone(), v.clone());
         }
+        for (sig, (n, d)) in self.stats.survey.lock().unwrap().iter() {
+            println!("SURVEY x{} {}", n, sig);
+            for l in d.lines().take(30) {
+                println!("    {}", l);
+            }
+        }
         let nviol = self.violations.lock().unwrap().len();
         let ev = serde_json::json!({
             "property_id": self.prop,
@@ -288,10 +311,11 @@ const SEP: &str = "\u{1}|\u{1}";
 ///
 /// `test(workers, value, counting)`: `counting` is false while proptest is shrinking, so that
 /// statistics only describe generated cases.
-pub fn run_prop<V, S, F>(ctx: &Ctx, sub: &str, strategy: S, total: u64, test: F) -> Vec<(V, Failure)>
+pub fn run_prop<V, S, M, F>(ctx: &Ctx, sub: &str, make_strategy: M, total: u64, test: F) -> Vec<(V, Failure)>
 where
     V: std::fmt::Debug + Clone + Send,
-    S: Strategy<Value = V> + Clone + Send + Sync,
+    S: Strategy<Value = V>,
+    M: Fn() -> S + Sync,
     F: Fn(&mut Workers, &V, bool) -> PropResult + Sync,
 {
     let threads = ctx.threads.max(1).min(total.max(1) as usize);
@@ -300,11 +324,12 @@ where
     let stop = AtomicBool::new(false);
     std::thread::scope(|scope| {
         for ti in 0..threads {
-            let strategy = strategy.clone();
+            let make_strategy = &make_strategy;
             let test = &test;
             let results = &results;
             let stop = &stop;
             scope.spawn(move || {
+                let strategy = make_strategy();
                 let mut seed_bytes = [0u8; 32];
                 let h = hash_str(&format!("{}:{}:{}:{}", ctx.prop, sub, ctx.seed, ti));
                 seed_bytes[..8].copy_from_slice(&h.to_le_bytes());
